@@ -229,7 +229,9 @@ Inductive op :=
 | OReplicate (p : peer)                                    (* interval replication fires at p *)
 | OAdvert (to holder : peer) (keys : list (key * rtype))   (* a replication list arrives *)
 | ODeliver (m : msg)                                       (* an undelivered message is delivered *)
-| ODrop (m : msg).                                         (* ... is lost *)
+| ODrop (m : msg)                                          (* ... is lost *)
+| OSetClosest (p : peer) (l : list peer)                   (* the routing table of p changed *)
+| OSetCands (p : peer) (l : list peer).                    (* ... or its responsible range did *)
 
 Definition step (s : sys) (o : op) : sys :=
   match o with
@@ -246,6 +248,16 @@ Definition step (s : sys) (o : op) : sys :=
   | OAdvert to holder keys => deliver_msg s (Replicate holder to holder keys)
   | ODeliver m => deliver_msg (mkSys (nodes s) (remove_msg m (pool s))) m
   | ODrop m => mkSys (nodes s) (remove_msg m (pool s))
+  | OSetClosest p l =>
+      match get_node p (nodes s) with
+      | Some n => mkSys (put_node (mkNode (self n) (held n) l (cands n) (inflight n)) (nodes s)) (pool s)
+      | None => s
+      end
+  | OSetCands p l =>
+      match get_node p (nodes s) with
+      | Some n => mkSys (put_node (mkNode (self n) (held n) (closest n) l (inflight n)) (nodes s)) (pool s)
+      | None => s
+      end
   end.
 
 Definition run (s : sys) (ops : list op) : sys := fold_left step ops s.
